@@ -12,7 +12,7 @@ LEVEL = "model_checking"
 MANIFEST = {
     "engine": "E3-bfs",
     "technique": "explicit-state exploration of all permutations of object and constraint lists on the real resolver",
-    "text": "For every constraint system of the bounded space (volume + objects a,b[,c], every multiset of at most 2 (quick) / 3 (thorough) entries of a 70-element alphabet of all five constraint kinds, each axis, uniform and non-uniform grids) the real resolver is run on every permutation of the object list (3! or 4!) combined with every distinct permutation of the constraint list; the set of reached canonical outcomes (success flag + resolved slices) must have exactly one element.",
+    "text": "For every constraint system of the bounded space (volume + objects a,b[,c], every multiset of at most 2 (quick) / 3 (thorough) entries of a 72-element alphabet of all five constraint kinds, each axis, uniform and non-uniform grids) the real resolver is run on every permutation of the object list (3! or 4!) combined with every distinct permutation of the constraint list; the set of reached canonical outcomes (success flag + resolved slices) must have exactly one element.",
     "note": "Schedules are enumerated completely per system; the systems themselves come from a finite alphabet. Slices are compared only between successful resolutions (a failed placement has no resolved slices through the public API). The smallest systems are replayed through place_objects in original and reversed order.",
 }
 RULE = (
